@@ -468,16 +468,19 @@ Proof. intros H. unfold to_int. Z.div_mod_to_equations. lia. Qed.
 
 (* ---- the /1000 loop ---- *)
 Lemma hs_loop_spec fuel : forall size cnt,
-  0 <= size < 10 * 1000 ^ Z.of_nat fuel ->
+  0 <= size < 10000 * 1000 ^ (Z.of_nat fuel - 1) ->
   exists j, 0 <= j /\
     hs_loop 10000 1000 fuel size cnt = Ok (size / 1000 ^ j, cnt + j) /\
     size / 1000 ^ j < 10000 /\ (0 < j -> 10 <= size / 1000 ^ j).
 Proof.
   induction fuel as [|f IH]; intros size cnt H.
-  - simpl in H. lia.
+  - change (10000 * 1000 ^ (Z.of_nat 0 - 1)) with 0 in H. lia.
   - cbn [hs_loop]. destruct (Z.geb_spec size 10000) as [G|G].
-    + assert (0 <= size / 1000 < 10 * 1000 ^ Z.of_nat f) as H'.
-      { rewrite Nat2Z.inj_succ, Z.pow_succ_r in H by lia.
+    + assert (0 <= size / 1000 < 10000 * 1000 ^ (Z.of_nat f - 1)) as H'.
+      { replace (Z.of_nat (S f) - 1) with (Z.of_nat f) in H by lia.
+        destruct f as [|f']; [simpl in H; lia|].
+        replace (Z.of_nat (S f')) with (Z.succ (Z.of_nat (S f') - 1)) in H by lia.
+        rewrite Z.pow_succ_r in H by lia.
         split; [apply Z.div_pos; lia|]. apply Z.div_lt_upper_bound; lia. }
       destruct (IH (size / 1000) (cnt + 1) H') as (j & Hj & E & B1 & B2).
       exists (j + 1).
@@ -490,6 +493,23 @@ Proof.
     + exists 0. change (1000 ^ 0) with 1. rewrite Z.div_1_r, Z.add_0_r.
       split; [lia|]. split; [reflexivity|]. split; [lia|]. intros; lia.
 Qed.
+
+Ltac pow_norm :=
+  repeat match goal with
+         | |- context [1000 ^ ?k] =>
+           let v := eval vm_compute in (1000 ^ k) in change (1000 ^ k) with v
+         | H : context [1000 ^ ?k] |- _ =>
+           let v := eval vm_compute in (1000 ^ k) in change (1000 ^ k) with v in H
+         end.
+
+(* the prefix character for a known shift count *)
+Ltac prefix_norm :=
+  match goal with
+  | |- context [rd prefixes_std (Z.to_nat ?k)] =>
+    let v := eval vm_compute in (rd prefixes_std (Z.to_nat k)) in
+    change (rd prefixes_std (Z.to_nat k)) with v;
+    let kv := eval vm_compute in k in change k with kv
+  end.
 
 (* M5 *)
 Theorem humansize_greatest_proof n :
@@ -505,9 +525,9 @@ Proof.
     exists (FSmall n). split; [cbn; lia|]. split.
     { rewrite to_int_small by lia. rewrite fmt_small_run, print_d_small by lia. reflexivity. }
     split; [cbn; lia|]. intros v _ Hv. cbn. exact Hv.
-  - assert (0 <= n / 100 < 10 * 1000 ^ Z.of_nat 70) as Hs.
+  - assert (0 <= n / 100 < 10000 * 1000 ^ (Z.of_nat 70 - 1)) as Hs.
     { split; [apply Z.div_pos; lia|]. apply Z.div_lt_upper_bound; [lia|].
-      assert (18446744073709551616 <= 100 * (10 * 1000 ^ Z.of_nat 70)) by (vm_compute; discriminate). lia. }
+      assert (18446744073709551616 <= 100 * (10000 * 1000 ^ (Z.of_nat 70 - 1))) by (vm_compute; discriminate). lia. }
     destruct (hs_loop_spec 70 (n / 100) 1 Hs) as (j & Hj & El & B1 & B2).
     rewrite El. cbn [bind].
     (* at most five divisions by 1000 *)
@@ -537,30 +557,27 @@ Proof.
     + (* "<a>.<b> <prefix>B" *)
       exists (FDec (sz / 10) (sz mod 10) (1 + j)).
       assert (1 <= sz / 10 <= 9 /\ 0 <= sz mod 10 <= 9) as Hd by (Z.div_mod_to_equations; lia).
-      split; [cbn; lia|]. split.
-      { destruct Hcases as [-> | [-> | [-> | [-> | [-> | ->]]]]]; cbn [Z.add Pos.add Z.to_nat Pos.to_nat Pos.iter_op Nat.add];
-          (change (rd prefixes_std _) with (@Ok N (prefix_char _)) || idtac);
-          cbn [rd nth_error prefixes_std bind];
+      split; [cbn [valid_form]; lia|]. split.
+      { destruct Hcases as [-> | [-> | [-> | [-> | [-> | ->]]]]]; prefix_norm; cbn [bind];
           rewrite fmt_frac_run, !print_d_small, !dec3_digit by lia; reflexivity. }
       assert (form_value (FDec (sz / 10) (sz mod 10) (1 + j)) = sz * (100 * 1000 ^ j)) as Ev.
       { cbn [form_value]. replace (1 + j - 1) with j by lia.
         replace (10 * (sz / 10) + sz mod 10) with sz by (Z.div_mod_to_equations; lia). ring. }
-      rewrite Ev. split; [lia|].
+      rewrite Ev. split; [lia|]. clear Hd Ev.
       intros v (f' & Vf & <-) Hv.
       destruct f' as [m | x k' | a b k']; cbn [valid_form form_value] in *.
-      * destruct Hcases as [-> | [-> | [-> | [-> | [-> | ->]]]]]; cbn in *; lia.
+      * destruct Hcases as [-> | [-> | [-> | [-> | [-> | ->]]]]]; pow_norm; lia.
       * assert (k' = 1 \/ k' = 2 \/ k' = 3 \/ k' = 4 \/ k' = 5 \/ k' = 6) as Hk by lia.
         destruct Hcases as [-> | [-> | [-> | [-> | [-> | ->]]]]];
-          destruct Hk as [-> | [-> | [-> | [-> | [-> | ->]]]]]; cbn in *; lia.
+          destruct Hk as [-> | [-> | [-> | [-> | [-> | ->]]]]]; pow_norm; lia.
       * assert (k' = 1 \/ k' = 2 \/ k' = 3 \/ k' = 4 \/ k' = 5 \/ k' = 6) as Hk by lia.
         destruct Hcases as [-> | [-> | [-> | [-> | [-> | ->]]]]];
-          destruct Hk as [-> | [-> | [-> | [-> | [-> | ->]]]]]; cbn in *; lia.
+          destruct Hk as [-> | [-> | [-> | [-> | [-> | ->]]]]]; pow_norm; lia.
     + (* "<X> <prefix>B" *)
       exists (FInt (sz / 10) (1 + j)).
       assert (10 <= sz / 10 <= 999) as Hd by (Z.div_mod_to_equations; lia).
-      split; [cbn; lia|]. split.
-      { destruct Hcases as [-> | [-> | [-> | [-> | [-> | ->]]]]];
-          cbn [rd nth_error prefixes_std bind Z.add Pos.add Z.to_nat Pos.to_nat Pos.iter_op Nat.add];
+      split; [cbn [valid_form]; lia|]. split.
+      { destruct Hcases as [-> | [-> | [-> | [-> | [-> | ->]]]]]; prefix_norm; cbn [bind];
           rewrite fmt_int_run, print_d_small by lia; reflexivity. }
       assert (form_value (FInt (sz / 10) (1 + j)) = (sz / 10) * 10 * (100 * 1000 ^ j)) as Ev.
       { cbn [form_value]. rewrite Z.pow_add_r by lia. change (1000 ^ 1) with 1000. ring. }
@@ -569,11 +586,31 @@ Proof.
       set (q := sz / 10) in *. assert (10 * q <= sz < 10 * q + 10) as Hq by (subst q; Z.div_mod_to_equations; lia).
       clearbody q.
       destruct f' as [m | x k' | a b k']; cbn [valid_form form_value] in *.
-      * destruct Hcases as [-> | [-> | [-> | [-> | [-> | ->]]]]]; cbn in *; lia.
+      * destruct Hcases as [-> | [-> | [-> | [-> | [-> | ->]]]]]; pow_norm; lia.
       * assert (k' = 1 \/ k' = 2 \/ k' = 3 \/ k' = 4 \/ k' = 5 \/ k' = 6) as Hk by lia.
         destruct Hcases as [-> | [-> | [-> | [-> | [-> | ->]]]]];
-          destruct Hk as [-> | [-> | [-> | [-> | [-> | ->]]]]]; cbn in *; lia.
+          destruct Hk as [-> | [-> | [-> | [-> | [-> | ->]]]]]; pow_norm; lia.
       * assert (k' = 1 \/ k' = 2 \/ k' = 3 \/ k' = 4 \/ k' = 5 \/ k' = 6) as Hk by lia.
         destruct Hcases as [-> | [-> | [-> | [-> | [-> | ->]]]]];
-          destruct Hk as [-> | [-> | [-> | [-> | [-> | ->]]]]]; cbn in *; lia.
+          destruct Hk as [-> | [-> | [-> | [-> | [-> | ->]]]]]; pow_norm; lia.
+Qed.
+
+(* non-vacuity / documentation examples for M5 *)
+Example format_examples :
+  humansize_repo 999 = Ok [57; 57; 57; 32; 66]%N /\                       (* "999 B" *)
+  humansize_repo 1000 = Ok [49; 46; 48; 32; 107; 66]%N /\                 (* "1.0 kB" *)
+  humansize_repo 9999 = Ok [57; 46; 57; 32; 107; 66]%N /\                 (* "9.9 kB" *)
+  humansize_repo 999999 = Ok [57; 57; 57; 32; 107; 66]%N /\               (* "999 kB" *)
+  humansize_repo 1000000 = Ok [49; 46; 48; 32; 77; 66]%N /\               (* "1.0 MB" *)
+  humansize_repo 18446744073709551615 = Ok [49; 56; 32; 69; 66]%N /\      (* "18 EB" *)
+  representable 18000000000000000000 /\ ~ representable 1001.
+Proof.
+  repeat split; try (vm_compute; reflexivity).
+  - exists (FInt 18 6). split; [cbn; lia | reflexivity].
+  - intros (f & Vf & Ef). destruct f as [m | x k | a b k]; cbn [valid_form form_value] in *.
+    + lia.
+    + assert (k = 1 \/ k = 2 \/ k = 3 \/ k = 4 \/ k = 5 \/ k = 6) as Hk by lia.
+      destruct Hk as [-> | [-> | [-> | [-> | [-> | ->]]]]]; pow_norm; lia.
+    + assert (k = 1 \/ k = 2 \/ k = 3 \/ k = 4 \/ k = 5 \/ k = 6) as Hk by lia.
+      destruct Hk as [-> | [-> | [-> | [-> | [-> | ->]]]]]; pow_norm; lia.
 Qed.
